@@ -1,0 +1,98 @@
+//! Verification hook (only compiled with `--cfg libp2p_verif`): a drop-in replacement for
+//! `futures_timer::Delay` that runs on the harness' *virtual* clock.
+//!
+//! `std::time::Instant::now()` is interposed by the verification harness and only moves when
+//! the harness advances it. `futures_timer::Delay` would fire from its own helper thread at a
+//! real-time moment the harness does not control; this `Delay` instead becomes ready exactly
+//! when `Instant::now()` has reached its deadline, and [`fire_due`] wakes the tasks waiting on
+//! due timers (the harness calls it after every clock advance).
+
+use std::{
+    collections::BTreeMap,
+    future::Future,
+    pin::Pin,
+    sync::Mutex,
+    task::{Context, Poll, Waker},
+    time::{Duration, Instant},
+};
+
+static REGISTRY: Mutex<BTreeMap<u64, (Instant, Option<Waker>)>> = Mutex::new(BTreeMap::new());
+static NEXT: std::sync::atomic::AtomicU64 = std::sync::atomic::AtomicU64::new(0);
+
+#[derive(Debug)]
+pub struct Delay {
+    id: u64,
+    deadline: Instant,
+}
+
+impl Delay {
+    pub fn new(dur: Duration) -> Self {
+        let id = NEXT.fetch_add(1, std::sync::atomic::Ordering::SeqCst);
+        let deadline = Instant::now() + dur;
+        REGISTRY.lock().unwrap().insert(id, (deadline, None));
+        Delay { id, deadline }
+    }
+
+    pub fn reset(&mut self, dur: Duration) {
+        self.deadline = Instant::now() + dur;
+        let mut r = REGISTRY.lock().unwrap();
+        let waker = r.remove(&self.id).and_then(|e| e.1);
+        r.insert(self.id, (self.deadline, waker));
+    }
+
+    /// The instant at which this timer fires (harness inspection).
+    pub fn deadline(&self) -> Instant {
+        self.deadline
+    }
+}
+
+impl Future for Delay {
+    type Output = ();
+
+    fn poll(self: Pin<&mut Self>, cx: &mut Context<'_>) -> Poll<()> {
+        if Instant::now() >= self.deadline {
+            return Poll::Ready(());
+        }
+        if let Some(e) = REGISTRY.lock().unwrap().get_mut(&self.id) {
+            e.1 = Some(cx.waker().clone());
+        }
+        Poll::Pending
+    }
+}
+
+impl Drop for Delay {
+    fn drop(&mut self) {
+        if let Ok(mut r) = REGISTRY.lock() {
+            r.remove(&self.id);
+        }
+    }
+}
+
+/// Wake every task waiting on a timer whose deadline has been reached. Returns how many.
+pub fn fire_due() -> usize {
+    let now = Instant::now();
+    let wakers: Vec<Waker> = REGISTRY
+        .lock()
+        .unwrap()
+        .values_mut()
+        .filter(|(d, _)| *d <= now)
+        .filter_map(|(_, w)| w.take())
+        .collect();
+    let n = wakers.len();
+    for w in wakers {
+        w.wake();
+    }
+    n
+}
+
+/// Deadlines of all live timers, ascending (harness inspection: "when is the next timer due").
+pub fn pending_deadlines() -> Vec<Instant> {
+    let mut v: Vec<Instant> = REGISTRY.lock().unwrap().values().map(|e| e.0).collect();
+    v.sort();
+    v
+}
+
+/// Forget all registrations (between executions).
+pub fn reset_registry() {
+    REGISTRY.lock().unwrap().clear();
+}
